@@ -7,4 +7,6 @@ Set Extraction KeepSingleton.
 From Kardia Require Import Base.Anchor.
 Extraction "../ocaml/C16/model.ml" Anchor.anchor Model.bN Model.Nb Model.encode Model.decode
   Model.decode_bytes_item Model.encode_to_bytes Model.decode_bytes Model.split Model.split_string
-  Model.split_list Model.split_uint64 Model.count_values Model.no_tag Model.stream_decode_bytes.
+  Model.split_list Model.split_uint64 Model.count_values Model.no_tag Model.stream_decode_bytes
+  Model.append_uint64 Model.int_size Model.list_size Model.list_iterator Model.stream_decode_all
+  Model.decode_all Model.s_script Model.new_stream Model.new_list_stream.
